@@ -76,7 +76,7 @@ def run(repo, rep):
             b = lf.get("", 0)
             rep.check(a == b, "C09-a", site, f"pair denotes the input scale: 2^{a} in the multiplier matches shift = {b} - exponent",
                       f"multiplier carries 2^{a} but shift is {b} - exponent on the path {p.decisions}: the pair denotes scale * 2^{a - b}")
-            rep.check(a == 31 or any("==" in t for t, d in p.decisions if d), "C09-a", site, "the full multiplier is a Q31 significand (in [2^30, 2^31])", f"2^{a}")
+            rep.check(a == 31 or (a == 30 and any(("==" in t or ">=" in t) and ("31" in t or "2147483648" in t) for t, d in p.decisions if d)), "C09-a", site, "the full multiplier is a Q31 significand (in [2^30, 2^31])", f"2^{a} on {p.decisions}")
         # range guard learnt on this path: 0 <= shift < 64
         guard = [(t, d) for t, d in p.decisions if "<" in t]
         rep.check(bool(guard), "C09-a", site, "the shift range test is on the path of every non-zero result", f"decisions {p.decisions}")
@@ -435,6 +435,7 @@ def run(repo, rep):
     rep.floor("C09-e", 6)
     rule_round5(repo, rep)
     rule_pool_scale_fits(repo, rep)
+    rule_multiplier_fits_int32(repo, rep)
     from .shared import loop_shared_clone_lint
 
     rep.clause("C09-i", "quantisation records that get per-iteration values (the per-group slices of per-channel weight scales) are cloned per iteration: a record cloned before the loop is shared by every tensor it was given to")
@@ -538,7 +539,8 @@ def rule_round5(repo, rep):
         return ext
 
     ex = {"np.log2": lift(math.log2), "numpy.log2": lift(math.log2), "math.log2": lift(math.log2), "math.floor": lift(math.floor), "math.ceil": lift(math.ceil)}
-    it = Interp(repo, repo.mod("numeric_util"), externs=ex)
+    from .shared import numeric_externs
+    it = Interp(repo, repo.mod("numeric_util"), externs={**numeric_externs(), **ex})
     wrong = []
     for v_ in (1, 2, 3, 4, 5, 7, 8, 9, 30, 49, 64, 65, 1023, 1024, 65535):
         ps = list(it.run("round_down_log2", lambda v_=v_: ([v_], {})))
@@ -576,6 +578,8 @@ def rule_pool_scale_fits(repo, rep, rule="C09-h"):
     rnd = num(lambda v: float(round(v)))  # numpy.round: half to even, as Python's round
     ext = {"math.frexp": num(_m.frexp), "numpy.trunc": tr, "np.trunc": tr, "math.ceil": num(_m.ceil), "numpy.ceil": ce, "np.ceil": ce,
            "np.round": rnd, "numpy.round": rnd, "np.rint": rnd, "numpy.rint": rnd, "np.double": wd, "numpy.double": wd, "np.float64": wd, "numpy.float64": wd, "np.float32": wd, "numpy.float32": wd}
+    from .shared import numeric_externs
+    ext = {**numeric_externs(), **ext}
     it = Interp(repo, gen, externs=ext)
     wrong = None
     pts = 0
@@ -609,3 +613,39 @@ def rule_pool_scale_fits(repo, rep, rule="C09-h"):
                + f"; intended value {wrong[6]:.6f}, register denotes {((int(wrong[4]) & 0xFFFFFFFF) / (1 << wrong[5])):.6f} "
                "(demonstrated end to end: AVERAGE_POOL_2D 2x2 VALID, scales 0.0456 -> 0.0123: OFM_SCALE (3666436096, 33) = 0.4268 instead of 0.9268)") if wrong else "")
     rep.floor(rule, 1)
+
+
+def rule_multiplier_fits_int32(repo, rep):
+    """(a') the multiplier quantise_scale returns is below 2^31: the reference renormalises a significand that rounds up to 2^31 (q_fixed /= 2,
+    ++shift), and the compile-time helpers that apply the pair (fp_math) work on int32. quantise_scale is interpreted on significands that
+    round up (1 - 2^-33) and on ordinary ones, for several exponents."""
+    import math as _m
+
+    from ..absint import Interp, Unknown
+
+    sc = repo.mod("scaling")
+
+    def num(f):
+        def g(i, a, k, n):
+            return f(a[0]) if a and isinstance(a[0], (int, float)) else Unknown("math(?)")
+        return g
+
+    tr = num(lambda v: float(_m.trunc(v)))
+    from .shared import numeric_externs
+    it = Interp(repo, sc, externs=numeric_externs())
+    wrong = []
+    pts = 0
+    for e in (-20, -7, 0, 3):
+        for sig in (1 - 2.0 ** -33, 1 - 2.0 ** -40, 0.75, 0.5, 1 - 2.0 ** -31):
+            s_ = _m.ldexp(sig, e)
+            ps = [p for p in it.run("quantise_scale", lambda s_=s_: ([s_], {})) if p.kind == "return"]
+            if len(ps) != 1 or not (isinstance(ps[0].value, tuple) and all(isinstance(x, int) for x in ps[0].value)):
+                raise AnalysisError(f"quantise_scale({s_!r}) not evaluable: {[(p.kind, p.value) for p in ps]}")
+            mult, shift = ps[0].value
+            pts += 1
+            exact = abs(mult * 2.0 ** -shift - s_) <= s_ * 2.0 ** -30
+            if not (mult == 0 or ((1 << 30) <= mult < (1 << 31) and exact)):
+                wrong.append((s_, mult, shift))
+    rep.check(not wrong, "C09-a", "ethosu/vela/scaling.py:quantise_scale", f"the multiplier is in [2^30, 2^31) and denotes the scale, also for significands that round up to 1 ({pts} probes)",
+              f"quantise_scale({wrong[0][0]!r}) = ({wrong[0][1]}, {wrong[0][2]}): 2^31 is no int32; the reference halves it and adjusts the shift. fp_math.multiply_by_quantized_multiplier overflows "
+              "(demonstrated: LEAKY_RELU int8 with ifm scale (1 + 2^-23) 2^-7, alpha 1 - 2^-23, ofm scale 2^-7 aborts with OverflowError)" if wrong else "")
